@@ -29,7 +29,7 @@ def main():
             import re
 
             src = open(os.path.join(seed_dir, demo0)).read()
-            open(os.path.join(wt, "demo_seed.py"), "w").write(re.sub(r"/tmp/(?:wt|w2|w3|w4|w5|w6|w7|w8)-C\d+\w*", wt, src))
+            open(os.path.join(wt, "demo_seed.py"), "w").write(re.sub(r"/tmp/(?:wt|w2|w3|w4|w5|w6|w7|w8|w9)-C\d+\w*", wt, src))
             r = sh(f"cd {wt} && /venv/bin/python demo_seed.py")
             res["demo_exit_without_change"] = r.returncode
         r = sh(f"git -C {wt} apply {seed_dir}/patch.diff")
@@ -43,7 +43,7 @@ def main():
             import re
 
             src = open(os.path.join(wt, "demo_seed.py")).read()
-            open(os.path.join(wt, "demo_seed.py"), "w").write(re.sub(r"/tmp/(?:wt|w2|w3|w4|w5|w6|w7|w8)-C\d+\w*", wt, src))
+            open(os.path.join(wt, "demo_seed.py"), "w").write(re.sub(r"/tmp/(?:wt|w2|w3|w4|w5|w6|w7|w8|w9)-C\d+\w*", wt, src))
             r = sh(f"cd {wt} && /venv/bin/python demo_seed.py", env=dict(os.environ, SEED_WT=wt))
             res["demo_exit_with_change"] = r.returncode
         for c in checks:
